@@ -85,7 +85,18 @@ pub fn check_trials(obs: &mut Obs, tag: &str, feed: &St, trials: &[St]) -> Vec<f
         });
         let pt = fresh(tr).map(|s| pressure_red(&s)).unwrap_or(f64::NAN);
         track(&format!("{tag}: |p_trial - p_feed| / (1e-7 p + 1e-10)"), (pt - pf).abs() / (TOL_P_REL * pf.abs() + TOL_P_ABS));
-        obs.close(&format!("{tag}: trial {k} pressure equals the feed's"), pt, pf, TOL_P_REL, TOL_P_ABS);
+        // open finding C07/trial-state-off-pressure-at-vanishing-feed-pressure: a dense trial state whose density
+        // iteration at a vanishing feed pressure ended without meeting its pressure test (signature below)
+        if pf.abs() < 1e-4 && pt > 1e3 * pf.abs() && tr.density.to_reduced() > 10.0 * feed.density.to_reduced() && !((pt - pf).abs() <= TOL_P_ABS + TOL_P_REL * pt.abs().max(pf.abs())) {
+            obs.count();
+            obs.class("signature:C07/trial-state-off-pressure-at-vanishing-feed-pressure");
+            obs.known_or_fail(
+                "C07/trial-state-off-pressure-at-vanishing-feed-pressure",
+                format!("{tag}: trial {k} pressure {pt:e} is not the feed's {pf:e} (dense trial state at a vanishing feed pressure)"),
+            );
+        } else {
+            obs.close(&format!("{tag}: trial {k} pressure equals the feed's"), pt, pf, TOL_P_REL, TOL_P_ABS);
+        }
         match tpd(feed, tr) {
             Some((d, d_f)) => {
                 if std::env::var("C05_DEBUG").is_ok() {
